@@ -1,5 +1,271 @@
-import XlVerif.Base
-/-! Driver for C03 (stub: replaced when the property's model is built). -/
+import XlVerif.Model.C03
+import XlVerif.Spec.C03
+/-!
+  Driver for C03.  Requests (fields separated by tabs; texts are `T:<code points joined by .>`,
+  inside composite fields just the code points):
+
+  * `C2N <T>` / `N2C <int>` / `GCL <int>` / `CIFS <T>`   column arithmetic (tokenizer and openpyxl)
+  * `RS <T>` / `RA <T>`                                  `resolve_sheet`, `resolve_address`
+  * `TOK <T>`                                            token value of a reference operand
+  * `RR <T:ranges> <T:default> [<sheet cps> <c1> <r1> <c2> <r2>]`   `resolve_ranges` (+ `rect`)
+  * `EV <T:default sheet> <items> <names> <probes>`      a whole workbook and probes, see below
+
+  `EV`: items `key@sheet@col@row@content` joined by `;`; content `c<S wire>` or `f<rpn>`; rpn tokens joined
+  by `~`: `n<int>`, `u<f>`, `b<f>`, `r<raw>^<k>^<sheet|*>^<c1>^<r1>^<c2>^<r2>` (k = c cell, r range, n name — the
+  name's text is then in the sheet position).  Names `name@text@k@sheet@c1@r1@c2@r2` joined by `;`.  Probes
+  `addr@k@sheet@col@row` joined by `;` (k = a: evaluate an address; n: evaluate a defined name).
+  Response `impl=o1|o2|…  spec=…  trunc=b1|b2|…  kf=<workbook-level guards>`.
+-/
 namespace XlVerif.Drv.C03
-def handle (_fields : List String) : String := "error=not-implemented"
+open XlVerif
+open XlVerif.Model.C03
+
+def join (sep : String) (l : List String) : String := sep.intercalate l
+
+def splitField (sep : String) (s : String) : List String := if s.isEmpty then [] else s.splitOn sep
+
+def textArg? (s : String) : Option Text :=
+  if s.startsWith "T:" then parseText? (s.drop 2).toString else none
+
+def tx (t : Text) : String := "T:" ++ textWire t
+
+def hashP : Nat := 2147483647
+
+def hashStep (h : Nat) (x : Nat) : Nat := (h * 131 + x) % hashP
+
+def hashMatrix (m : List (List Text)) : Nat :=
+  m.foldl (fun h row => hashStep (row.foldl (fun h t => hashStep (t.foldl (fun h c => hashStep h c.toNat) h) 44) h) 59) 7
+
+def hashAddrs (m : List (List Spec.C03.Addr)) : Nat :=
+  m.foldl (fun h row => hashStep (row.foldl (fun h a => hashStep (hashStep h a.col) a.row) h) 7) 7
+
+def matrixLimit : Nat := 6000
+
+def optTextWire : Option Text → String
+  | none => "None"
+  | some t => tx t
+
+/-! ### formulas -/
+
+def refOf (parts : List String) : Option (Expr × Spec.C03.SExpr) :=
+  match parts with
+  | [raw, k, sh, c1, r1, c2, r2] => do
+    let raw ← parseText? raw
+    let c1 ← c1.toNat?
+    let r1 ← r1.toNat?
+    let c2 ← c2.toNat?
+    let r2 ← r2.toNat?
+    let sheet : Option (Option Text) := if sh == "*" then some none else (parseText? sh).map some
+    let sheet ← sheet
+    match k with
+    | "c" => some (.ref raw, .ref (.cell sheet c1 r1))
+    | "r" => some (.ref raw, .ref (.range sheet c1 r1 c2 r2))
+    | "n" => some (.ref raw, .ref (.name (sheet.getD [])))
+    | _ => none
+  | _ => none
+
+def rpnStep (st : List (Expr × Spec.C03.SExpr)) (tk : String) : Option (List (Expr × Spec.C03.SExpr)) :=
+  let body := (tk.drop 1).toString
+  if tk.startsWith "n" then (body.toInt?).map fun z => (.num z, .num z) :: st
+  else if tk.startsWith "u" then
+    match body.toNat?, st with
+    | some f, (a, sa) :: rest => some ((.un f a, .un f sa) :: rest)
+    | _, _ => none
+  else if tk.startsWith "b" then
+    match body.toNat?, st with
+    | some f, (b, sb) :: (a, sa) :: rest => some ((.bin f a b, .bin f sa sb) :: rest)
+    | _, _ => none
+  else if tk.startsWith "r" then (refOf (body.splitOn "^")).map fun e => e :: st
+  else none
+
+def rpn? (s : String) : Option (Expr × Spec.C03.SExpr) :=
+  match (s.splitOn "~").foldlM rpnStep [] with
+  | some [e] => some e
+  | _ => none
+
+structure ItemIn where
+  key : Text
+  addr : Spec.C03.Addr
+  item : Item
+  scell : Spec.C03.SCell
+
+def item? (s : String) : Option ItemIn :=
+  match s.splitOn "@" with
+  | [key, sh, col, row, content] => do
+    let key ← parseText? key
+    let sh ← parseText? sh
+    let col ← col.toNat?
+    let row ← row.toNat?
+    let body := (content.drop 1).toString
+    if content.startsWith "c" then
+      (S.ofWire? body).map fun v => ⟨key, ⟨sh, col, row⟩, .const v, .const v⟩
+    else if content.startsWith "f" then
+      (rpn? body).map fun e => ⟨key, ⟨sh, col, row⟩, .formula e.1, .formula e.2⟩
+    else none
+  | _ => none
+
+structure NameIn where
+  name : Text
+  text : Text
+  target : Spec.C03.Target
+
+def name? (s : String) : Option NameIn :=
+  match s.splitOn "@" with
+  | [n, t, k, sh, c1, r1, c2, r2] => do
+    let n ← parseText? n
+    let t ← parseText? t
+    let sh ← parseText? sh
+    let c1 ← c1.toNat?
+    let r1 ← r1.toNat?
+    let c2 ← c2.toNat?
+    let r2 ← r2.toNat?
+    match k with
+    | "c" => some ⟨n, t, .cell ⟨sh, c1, r1⟩⟩
+    | "r" => some ⟨n, t, .range ⟨sh, c1, r1, c2, r2⟩⟩
+    | _ => none
+  | _ => none
+
+inductive ProbeIn
+  | addr (a : Text) (sa : Spec.C03.Addr)
+  | name (n : Text)
+
+def probe? (s : String) : Option ProbeIn :=
+  match s.splitOn "@" with
+  | [a, k, sh, col, row] => do
+    let a ← parseText? a
+    let sh ← parseText? sh
+    let col ← col.toNat?
+    let row ← row.toNat?
+    match k with
+    | "a" => some (.addr a ⟨sh, col, row⟩)
+    | "n" => some (.name a)
+    | _ => none
+  | _ => none
+
+def outWire (o : Out V) : String := o.wire V.wire
+
+/-- the sheet part of a reference text contains `ch` -/
+def sheetPartHas (ch : Char) (t : Text) : Bool :=
+  match splitOn '!' t with
+  | [sh, _] => has ch sh
+  | _ => false
+
+def bigFuel : Nat := 400
+def noLimit : Nat := 1000000000
+
+def handleEV (dflt items names probes : String) : String :=
+  match textArg? dflt, (splitField ";" items).mapM item?, (splitField ";" names).mapM name?,
+        (splitField ";" probes).mapM probe? with
+  | some dflt, some items, some names, some probes =>
+    -- reference side
+    let scells := items.map fun i => (i.addr, i.scell)
+    let snames := names.map fun n => (n.name, n.target)
+    let swb : Spec.C03.Workbook :=
+      ⟨fun a => (scells.reverse.find? fun p => p.1 == a).map (·.2),
+       fun n => (snames.reverse.find? fun p => p.1 == n).map (·.2)⟩
+    let specOf : ProbeIn → Out V
+      | .addr _ sa => Spec.C03.value cUn cBin swb bigFuel sa
+      | .name n =>
+        match swb.names n with
+        | some (.cell a) => Spec.C03.value cUn cBin swb bigFuel a
+        | _ => .crash .valueError
+    let specs := probes.map specOf
+    -- implementation side
+    match compile dflt (items.map fun i => (i.key, i.item)) (names.map fun n => (n.name, n.text)) with
+    | .val wb =>
+      let implOf (me : Nat) : ProbeIn → Out V
+        | .addr a _ => evaluate cUn cBin me wb bigFuel a
+        | .name n => evaluate cUn cBin me wb bigFuel n
+      let impls := probes.map (implOf Gen.maxEmpty)
+      let untr := probes.map (implOf noLimit)
+      let trunc := (impls.zip untr).map fun p => if outWire p.1 == outWire p.2 then "0" else "1"
+      let refs := (items.filterMap fun i => match i.item with
+        | .formula e => some (e.mapRef tokRef).refs | _ => none).flatten
+      let keys := items.map (·.key)
+      let flags : List String :=
+        (if (wb.cells.any fun kc => kc.2.formula.isNone && kc.2.value == .text []) then ["D0301"] else []) ++
+        (if (refs ++ keys ++ names.map (·.text)).any (sheetPartHas '$') then ["D0302"] else []) ++
+        (if refs.any (sheetPartHas ',') then ["D0303"] else []) ++
+        (if (names.any fun n => match splitOn '!' n.text with
+              | [sh, _] => (sh.drop 1).dropLast.contains '\''
+              | _ => false) then ["D1101"] else [])
+      kv [("impl", join "|" (impls.map outWire)), ("spec", join "|" (specs.map outWire)),
+          ("trunc", join "|" trunc), ("kf", join "," flags),
+          ("ranges", toString wb.ranges.length), ("cells", toString wb.cells.length)]
+    | o =>
+      kv [("impl", join "|" (probes.map fun _ => outWire (o.map fun _ => V.s .blank))),
+          ("spec", join "|" (specs.map outWire)), ("trunc", join "|" (probes.map fun _ => "0")),
+          ("kf", ""), ("compile", "crash")]
+  | _, _, _, _ => "error=bad-args"
+
+def handleRR (ranges dflt : Text) (spec : Option Spec.C03.Range) : String :=
+  let specKv : List (String × String) :=
+    match spec with
+    | none => []
+    | some g =>
+      let m := Spec.C03.rect g
+      let cells := (m.map List.length).foldl (· + ·) 0
+      [("ssheet", tx g.sheet), ("sn", toString m.length), ("sc", toString cells),
+       ("sh", toString (hashAddrs m)),
+       ("sm", if cells ≤ matrixLimit then
+                join ";" (m.map fun row => join "," (row.map fun a => s!"{a.col}:{a.row}")) else "-")]
+  match resolveRanges ranges dflt with
+  | .val (sheet, m) =>
+    let cells := (m.map List.length).foldl (· + ·) 0
+    kv ([("impl", "ok"), ("sheet", tx sheet), ("n", toString m.length), ("c", toString cells),
+         ("h", toString (hashMatrix m)),
+         ("m", if cells ≤ matrixLimit then join ";" (m.map fun row => join "," (row.map textWire)) else "-")]
+        ++ specKv)
+  | o => kv ([("impl", outWire (o.map fun _ => V.s .blank))] ++ specKv)
+
+def handle (fields : List String) : String :=
+  match fields with
+  | ["C2N", t] =>
+    match textArg? t with
+    | some t =>
+      kv [("impl", match col2num t with | some z => s!"I:{z}" | none => "X:Exception"),
+          ("spec", if Spec.C03.isColName t then s!"I:{Spec.C03.colValue t}" else "-")]
+    | none => "error=bad-args"
+  | ["N2C", n] =>
+    match n.toInt? with
+    | some z =>
+      let r := num2col z
+      kv [("impl", match r with | some t => tx t | none => "X:Exception"),
+          ("spec", match r with
+            | some t => if z < 1 then "-" else
+                        if Spec.C03.isColName t && (Spec.C03.colValue t : Int) == z then "ok" else "bad"
+            | none => if z < 1 then "-" else "bad")]
+    | none => "error=bad-args"
+  | ["GCL", n] =>
+    match n.toInt? with
+    | some z => kv [("impl", (getColumnLetter z).wire tx)]
+    | none => "error=bad-args"
+  | ["CIFS", t] =>
+    match textArg? t with
+    | some t => kv [("impl", (columnIndexFromString t).wire fun n => s!"I:{n}")]
+    | none => "error=bad-args"
+  | ["RS", t] =>
+    match textArg? t with
+    | some t => kv [("impl", optTextWire (resolveSheet t))]
+    | none => "error=bad-args"
+  | ["RA", t] =>
+    match textArg? t with
+    | some t =>
+      kv [("impl", (resolveAddress t).wire fun (s, c, r) => optTextWire s ++ "|" ++ tx c ++ "|" ++ tx r)]
+    | none => "error=bad-args"
+  | ["TOK", t] =>
+    match textArg? t with
+    | some t => kv [("impl", tx (tokRef t))]
+    | none => "error=bad-args"
+  | ["RR", r, d] =>
+    match textArg? r, textArg? d with
+    | some r, some d => handleRR r d none
+    | _, _ => "error=bad-args"
+  | ["RR", r, d, sh, c1, r1, c2, r2] =>
+    match textArg? r, textArg? d, parseText? sh, c1.toNat?, r1.toNat?, c2.toNat?, r2.toNat? with
+    | some r, some d, some sh, some c1, some r1, some c2, some r2 => handleRR r d (some ⟨sh, c1, r1, c2, r2⟩)
+    | _, _, _, _, _, _, _ => "error=bad-args"
+  | ["EV", dflt, items, names, probes] => handleEV dflt items names probes
+  | _ => "error=bad-request"
+
 end XlVerif.Drv.C03
